@@ -28,6 +28,12 @@ def run(ctx, prop, repo_root):
         for sid, e in sorted(exp.items()):
             if prop in e.get("caught_by", {}):
                 vs.append({"name": "seeded-" + sid, "props": [prop], "patch": f"seeded/{sid}/patch.diff", "rule": e["caught_by"][prop], "expect": 1})
+    # behaviour-preserving refactorings written for this property (seeded/refactorings/<prop>-R*): must stay silent
+    import glob
+
+    for pd in sorted(glob.glob(os.path.join(VERIF, "seeded", "refactorings", prop + "-R*", "patch.diff"))):
+        name = os.path.basename(os.path.dirname(pd))
+        vs.append({"name": "refactoring-" + name, "props": [prop], "patch": os.path.relpath(pd, VERIF), "rule": None, "expect": 0})
     ctx.rule("SWEEP", "sensitivity: each canonical break of a rule instance (source variant on a scratch copy) makes the check fire with that rule; benign refactors stay silent", floor=3)
     tested = fired = silent_ok = skipped = 0
     results = []
